@@ -1,6 +1,7 @@
 // simrun: one binary per generated program. Worker mode iterates run indices; replay mode interprets one plan.
 #include "engine.h"
 #include "bulk.h"
+#include "nest.h"
 #include "walker.h"
 #include <OCTET_STRING.h>
 #include <asn_SET_OF.h>
@@ -104,6 +105,18 @@ void *value_from_spec(asn_TYPE_descriptor_t *td, const std::string &spec) {
         for(int i = 0; i < NBULK; i++) if(name == BULKS[i].name && std::string(td->name) == BULKS[i].type) return value_from_xer(td, BULKS[i].xer(k));
         return nullptr;
     }
+    if(spec.rfind("nest:", 0) == 0) {          // nest:<template>:<depth> - a deeply nested value, decoded from the nest templates of sim/nest.h
+        size_t c = spec.rfind(':');
+        std::string name = spec.substr(5, c - 5); size_t depth = (size_t)strtoull(spec.c_str() + c + 1, 0, 10);
+        for(int i = 0; i < NTEMPL; i++) if(name == TEMPLATES[i].name && std::string(td->name) == TEMPLATES[i].type) {
+            Bytes S = TEMPLATES[i].gen(depth); void *st = nullptr;
+            DecResult r = decode_call(td, TEMPLATES[i].sy, &st, S.data(), S.size());
+            if(!r.aborted && r.code == RC_OK && st) return st;
+            if(st && !r.aborted) free_struct(td, st);
+            return nullptr;
+        }
+        return nullptr;
+    }
     if(spec == "zero") {
         size_t sz = struct_size_of(td);
         return sz ? sim_alloc_tracked(sz) : nullptr;
@@ -142,6 +155,17 @@ ValueChoice choose_value(uint64_t run_seed, size_t max_budget) {
         c.st = value_from_spec(c.td, c.origin);
         if(c.st) { G.add("reach.bulk_values"); reach_probes(c); return c; }
         c.td = choose_type(rt);
+    }
+    // ... and 1 run in 24: a value nested 10 / 35 / 60 levels deep through a recursive type (work that is exponential in the depth
+    // cannot hide at the depths asn_random_fill reaches)
+    static std::vector<int> nest_here = [] { std::vector<int> v; for(int i = 0; i < NTEMPL; i++) if(pdu_by_name(TEMPLATES[i].type) && !strstr(TEMPLATES[i].name, "-skip")) v.push_back(i); return v; }();
+    if(!nest_here.empty() && max_budget >= 160 && rv.chance(1, 24)) {
+        static const size_t ds[] = {10, 35, 60};
+        const Tmpl &t = TEMPLATES[nest_here[rv.below(nest_here.size())]];
+        asn_TYPE_descriptor_t *ntd = pdu_by_name(t.type);
+        std::string spec = std::string("nest:") + t.name + ":" + std::to_string(ds[rv.below(3)]);
+        void *st = value_from_spec(ntd, spec);
+        if(st) { c.td = ntd; c.origin = spec; c.st = st; G.add("reach.nested_values"); reach_probes(c); return c; }
     }
     if(fillable(c.td)) {
         size_t budget = 8 + (size_t)rv.below(max_budget - 7);
